@@ -37,11 +37,12 @@ def run_variant(pid, overrides, tier='quick', root=None):
     ctx = Ctx(pid, tier, repo, level=getattr(mod, 'LEVEL', 'other'),
               collect_only=True)
     err = None
-    from ..core import control, template
+    from ..core import control, defuse, template
     template.AUDIT = []
     try:
         mod.run(ctx)
         control.audit(ctx)
+        defuse.audit(ctx)
     except AnalysisError as e:
         err = str(e)
     except Exception as e:
